@@ -26,7 +26,7 @@ def make_plan(tape, prop):
     # the compiler process may have served another schema with the same names before (stale in-process state), and the
     # schema may be split into an included file and an including file generated in one run
     plan["stale"] = tape.chance(1, 2)
-    plan["split"] = 1 + tape.draw(8) if tape.chance(1, 3) else 0
+    plan["split"] = 1 + tape.draw(8) if tape.chance(1, 2) else 0
     plan["split_order"] = tape.draw(2)
     return plan
 
